@@ -235,12 +235,45 @@ pub open spec fn math_result_spec(n: ParserNode, inn: Map<Register, AvailableVal
         }
     }
 }
+pub open spec fn wrap_k(v: int) -> int { if v % 0x1_0000_0000 < 0x8000_0000 { -(v / 0x1_0000_0000) } else { -(v / 0x1_0000_0000) - 1 } }
+/// wrap32 subtracts a multiple of 2^32 ...
+pub proof fn lemma_wrap_k(v: int)
+    ensures wrap32(v) == v + 0x1_0000_0000 * wrap_k(v),
+{
+    vstd::arithmetic::div_mod::lemma_fundamental_div_mod(v, 0x1_0000_0000);
+}
+/// ... and does not see multiples of 2^32
+pub proof fn lemma_wrap_congruent(a: int, b: int, k: int)
+    requires a == b + 0x1_0000_0000 * k,
+    ensures wrap32(a) == wrap32(b),
+{
+    vstd::arithmetic::div_mod::lemma_mod_multiples_vanish(k, b, 0x1_0000_0000);
+}
+/// 32-bit addition and subtraction may be carried out in any order and wrapped at any point
 pub proof fn lemma_wrap_arith(e: int, x: int, y: int)
     ensures
         wrap32(wrap32(e + x) + y) == wrap32(e + wrap32(x + y)),
         wrap32(wrap32(e + x) - y) == wrap32(e + wrap32(x - y)),
         wrap32(x + wrap32(e + y)) == wrap32(e + wrap32(x + y)),
 {
+    lemma_wrap_k(e + x); lemma_wrap_k(x + y); lemma_wrap_k(x - y); lemma_wrap_k(e + y);
+    lemma_wrap_congruent(wrap32(e + x) + y, e + x + y, wrap_k(e + x));
+    lemma_wrap_congruent(e + wrap32(x + y), e + x + y, wrap_k(x + y));
+    lemma_wrap_congruent(wrap32(e + x) - y, e + x - y, wrap_k(e + x));
+    lemma_wrap_congruent(e + wrap32(x - y), e + x - y, wrap_k(x - y));
+    lemma_wrap_congruent(x + wrap32(e + y), e + x + y, wrap_k(e + y));
+}
+/// wrap32 on the sum of two 32-bit values, spelled without `%` (the form in which vstd states i32::wrapping_add)
+pub proof fn lemma_wrap_small(v: int)
+    requires -0x1_0000_0000 <= v < 0x1_0000_0000,
+    ensures wrap32(v) == (if v >= 0x8000_0000 { v - 0x1_0000_0000 } else if v < -0x8000_0000 { v + 0x1_0000_0000 } else { v }),
+{
+    let r = if v >= 0x8000_0000 { v - 0x1_0000_0000 } else if v < -0x8000_0000 { v + 0x1_0000_0000 } else { v };
+    let k = if v >= 0x8000_0000 { 1int } else if v < -0x8000_0000 { -1int } else { 0int };
+    lemma_wrap_congruent(v, r, k);
+    // r is already in range: wrap32(r) == r
+    if r >= 0 { vstd::arithmetic::div_mod::lemma_small_mod(r as nat, 0x1_0000_0000); }
+    else { lemma_wrap_congruent(r, r + 0x1_0000_0000, -1); vstd::arithmetic::div_mod::lemma_small_mod((r + 0x1_0000_0000) as nat, 0x1_0000_0000); }
 }
 pub proof fn lemma_math_sound(n: ParserNode, inn: Map<Register, AvailableValue>, v: AvailableValue, rd: Register, pre: St, post: St, c: Ctx)
     requires
